@@ -800,8 +800,23 @@ class CallsMixin:
             if x.dt != dt:
                 dt = 'f' if {x.dt, dt} <= {'i', 'f', 'b'} else None
         r = ARR(tuple(dims), dt, taint=taint)
-        from .layout import concat_layout
+        from .layout import concat_layout, layouts_conflict, _fac
         r.lay = concat_layout(self, arrs, ax)
+        for i in range(nd):
+            if i == ax:
+                continue
+            facs = [(_fac(x, i) if x.lay is not None else None) for x in arrs]
+            known = [f for f in facs if f is not None and len(f) > 1]
+            for f in known[1:]:
+                if layouts_conflict(known[0], f):
+                    self.site('S-layout', node, 'violation',
+                              'blocks stacked side by side enumerate axis %d '
+                              'in different orders: %s vs %s (fastest factor '
+                              'first)' % (i, list(known[0]), list(f)))
+                    break
+            else:
+                if len(known) >= 2:
+                    self.site('S-layout', node, 'ok')
         r.nonneg = all(x.nonneg for x in arrs)
         lgs = [x.lg for x in arrs if x.note != 'zeros']   # zero blocks: any scale
         if lgs and all(l is not None for l in lgs) and \
@@ -1021,6 +1036,8 @@ class CallsMixin:
         if short in ('argsort',):
             r.dt = 'i'
             r.idx = 'perm'
+            if a.lay is not None and len(a.lay) == 1 and a.lay[0] is not None:
+                r.src = ('rowsof', tuple(a.lay[0]))
         elif short in ('isinf', 'isnan', 'isfinite'):
             r.dt = 'b'
         elif short in ('abs', 'absolute', 'square'):
